@@ -9,6 +9,8 @@
 (* the stream, so the same module runs with buffer 3 / slab 6 (all chunkings, exhaustive) and with the real           *)
 (* 64K / 128K (behaviour export).                                                                                     *)
 EXTENDS FzfRecords, FiniteSets, TLC
+(* IdleRead (binding rule, Judge_Feed): a read() that returns no bytes and no error is not an event of this model - the  *)
+(* code retries it (up to 100 times in a row) with the same buffer; the driver produces such reads and TLC skips them.   *)
 
 CONSTANTS BufferSize,   \* readerBufferSize: most bytes one read() may deliver
           SlabSize,     \* readerSlabSize
